@@ -661,6 +661,8 @@ def ad_rev_next(E, st, ptr, v, fid, item_ty=None):
             a.zone.add_eq(bk, nb, 1)
             E.store(a, _field_ptr(E, a, ptr, 0), ('sliceit', mid, fr, nb, mut))
             a.log('adv', mid, nb, 'back')
+            if getattr(E, 'track_adv', False):
+                E.ghost_bump(a, ('adv', mid))
             out.append(('ret', a, some(('ref', mut, ('mu', mid, nb)))))
         st.zone.add_le(bk, fr)
         if st.zone.sat:
